@@ -281,6 +281,7 @@ func (c *conn) send(ctx async.Context, msg pmpx.Message) status.Status {
 		case !st.OK():
 			return statusConnClosed
 		case ok:
+			vtr("wq.put", bin.Bin128{}, int64(len(b)), 0)
 			return status.OK
 		}
 
